@@ -38,6 +38,12 @@ CLAIMED = {
             'reference comments ...): parsing raises only parse errors, pydbml.exceptions or SyntaxError, and every database that is '
             'returned renders (.dbml/.sql of the database and of every element) without raising.',
             'DESIGN.md 6/C08', 'Three crashes named in the property statement were repaired by fix: commits (see known_findings.json).'),
+    'C01': ('Scenario functions per grammar rule (column, table header/body, index, enum, reference, project/group/sticky, whole-document '
+            'order and inline-vs-standalone equivalence) build the DBML text in a chosen surface spelling AND the expected content from '
+            'the same symbolic arguments; the parsed database must equal the expected content exactly (nothing dropped, nothing extra). '
+            'Names and free texts are K-character symbolic holes, setting presence / operator / form selectors are symbolic or fanned out '
+            '(quoting, keyword case, one-line vs multi-line, settings order, body order, schema.name / bare / alias addressing).',
+            'DESIGN.md 6/C01', 'Open finding c01_backslash_in_quoted_name (pyparsing converts \\t etc. inside quoted identifiers).'),
 }
 _PENDING = 'check under construction in this session (harness not yet committed); not claimed until it runs clean on the unchanged tree'
 NOT_APPLICABLE = {f'C{i:02d}': _PENDING for i in range(1, 19) if f'C{i:02d}' not in CLAIMED}
